@@ -1133,8 +1133,13 @@ def run_metric_case(ctx, idx, kind, sid, comp):
     ctx.check(not bad, MECH[kind], lambda: dict(diff=bad, items=[{k: np.asarray(v).tolist() for k, v in it.items()} for it in items][:6]))
     if kind == 'multi':
       ctx.check(got.get('__keys__') == ['accuracy', 'loss', 'stats', 'acc2'], 'metric.multimetric:keys', lambda: got.get('__keys__'))
-    # reset -> initial result
+    # reset -> initial result; whatever was accumulated before - a diverged epoch (inf / nan loss values, a float32 sum overflow) too
     count_dtype0 = metric.count.value.dtype if hasattr(metric, 'count') else None
+    if kind in ('avg1', 'avg2', 'wf1', 'wf2') and (sid + len(comp)) % 3 == 0:
+      import jax.numpy as jnp
+      bad = [jnp.asarray([np.inf, 1.0]), jnp.asarray([np.nan]), jnp.asarray([3e38, 3e38], jnp.float32)][(sid + n) % 3]
+      metric.update(values=bad)
+      ctx.event('metric.nonfinite_epoch_before_reset')
     metric.reset()
     ctx.op('metric.reset')
     if count_dtype0 is not None:
